@@ -370,6 +370,36 @@ impl Property for P16 {
                                 return Err(format!("named access .{} for selector {:#x} gives a {} object", want[0], s, kind_name(&via)));
                             }
                         }
+                        // a named layer property the selector does not select yields null (here: after $n filled the cache)
+                        if !truncated {
+                            let parent = vm.get_inner(&po, depth - 1, 1).map_err(|e| e.msg)?;
+                            let layer_props: &[(P, &str)] = match level {
+                                0 | 1 => &[(P::Vlan, "vlan"), (P::Ipv4, "ipv4"), (P::Ipv6, "ipv6")],
+                                2 => &[(P::Udp, "udp"), (P::Tcp, "tcp"), (P::Ipv6, "ipv6")],
+                                _ => &[(P::Udp, "udp"), (P::Tcp, "tcp")],
+                            };
+                            for (prop, name) in layer_props {
+                                if want.contains(name) {
+                                    continue;
+                                }
+                                let via = vm.exec_prop_expr(parent.clone(), *prop as u8, None, 1).map_err(|e| format!("named access .{} for selector {:#x} at level {}: runtime error '{}'", name, s, level, e.msg))?;
+                                if kind_name(&via) != "null" {
+                                    return Err(format!("selector {:#x} at level {}: the named property .{} gives a {} object although the selector selects {:?}", s, level, name, kind_name(&via), want));
+                                }
+                            }
+                            // and in the other order, on a fresh packet: named reads first must not disturb $n
+                            if [0x0800usize, 0x86DD, 0x8100, 0x0806, 6, 17, 41, 0, 1].contains(s) {
+                                let fresh: Rc<Object> = Rc::new(Object::Packet(load_frames(&dir, "dsp2", &[frames[n as usize].clone()]).remove(0)));
+                                let parent = vm.get_inner(&fresh, depth - 1, 1).map_err(|e| e.msg)?;
+                                for (prop, _) in layer_props {
+                                    let _ = vm.exec_prop_expr(parent.clone(), *prop as u8, None, 1);
+                                }
+                                let again = vm.get_inner(&fresh, *depth, 1).map_err(|e| e.msg)?;
+                                if !want.contains(&kind_name(&again)) {
+                                    return Err(format!("selector {:#x} at level {}: after reading the named layer properties ${} is a {} object, expected {:?}", s, level, depth, kind_name(&again), want));
+                                }
+                            }
+                        }
                         n += 1;
                     }
                     // depths beyond the chain give null; $11 must not crash
